@@ -70,39 +70,115 @@ fn deadlocked_slot(cfg: &RunCfg, out: &RunOut, finalized: u64) -> Option<String>
     if faulty * 5 <= total {
         return None;
     }
+    let st = |s: &BTreeSet<usize>| -> u128 { s.iter().map(|i| cfg.ep.stakes[*i] as u128).sum() };
     for slot in finalized + 1..finalized + 9 {
-        let mut notar: BTreeMap<H32, BTreeSet<usize>> = BTreeMap::new();
-        let mut skip: BTreeSet<usize> = BTreeSet::new();
-        for v in out.votes_sent.iter().map(|x| &x.2).chain(out.byz_own_votes.iter()) {
-            if v.slot != slot || v.signer >= cfg.ep.n() {
+        // what the live correct nodes themselves voted
+        let mut blocks_voted: BTreeSet<H32> = BTreeSet::new();
+        let mut voted: BTreeSet<usize> = BTreeSet::new();
+        for (_, from, v) in out.votes_sent.iter() {
+            if v.slot == slot && out.correct.contains(from) && matches!(v.kind, VK::Notar | VK::Skip) {
+                voted.insert(*from);
+                if let (VK::Notar, Some(h)) = (v.kind, v.hash) {
+                    blocks_voted.insert(h);
+                }
+            }
+        }
+        if blocks_voted.len() < 2 || !out.correct.iter().all(|c| voted.contains(c)) {
+            continue;
+        }
+        // per live correct node: with everything delivered to it (Byzantine votes included), is any certificate or
+        // safe-to condition reachable?
+        let mut views = Vec::new();
+        let mut stuck_everywhere = true;
+        for &node in &out.correct {
+            let mut notar: BTreeMap<H32, BTreeSet<usize>> = BTreeMap::new();
+            let mut skip: BTreeSet<usize> = BTreeSet::new();
+            for (_, to, v) in out.votes_delivered.iter() {
+                if *to != node || v.slot != slot || v.signer >= cfg.ep.n() {
+                    continue;
+                }
+                match (v.kind, v.hash) {
+                    (VK::Notar, Some(h)) => {
+                        notar.entry(h).or_default().insert(v.signer);
+                    }
+                    (VK::Skip, _) => {
+                        skip.insert(v.signer);
+                    }
+                    _ => {}
+                }
+            }
+            let per: Vec<u128> = notar.values().map(st).collect();
+            let sum: u128 = per.iter().sum();
+            let max: u128 = per.iter().copied().max().unwrap_or(0);
+            let sk = st(&skip);
+            let any_cert = max * 5 >= 3 * total || sk * 5 >= 3 * total;
+            let s2s = (sk + sum - max) * 5 >= 2 * total;
+            let s2n = per.iter().any(|nb| *nb * 5 >= 2 * total || (*nb * 5 >= total && (*nb + sk) * 5 >= 3 * total));
+            if any_cert || s2s || s2n {
+                stuck_everywhere = false;
+                break;
+            }
+            views.push(format!("node {node}: notar {per:?} skip {sk}"));
+        }
+        if stuck_everywhere {
+            return Some(format!("slot {slot}: {} of total {total}; crashed or Byzantine stake {faulty}", views.join("; ")));
+        }
+    }
+    None
+}
+
+/// The stalled slot has two blocks voted by correct nodes, and at some live correct node the stake part of
+/// safe-to-notar holds for the block it did not vote for (by the votes delivered to it) although it never cast
+/// that notar-fallback vote: it is still waiting to obtain the rival block.
+fn rival_block_pending(cfg: &RunCfg, out: &RunOut, finalized: u64) -> Option<String> {
+    let total = cfg.ep.total();
+    let st = |s: &BTreeSet<usize>| -> u128 { s.iter().map(|i| cfg.ep.stakes[*i] as u128).sum() };
+    for slot in finalized + 1..finalized + 9 {
+        let mut own: BTreeMap<usize, H32> = BTreeMap::new();
+        let mut nf: BTreeSet<(usize, H32)> = BTreeSet::new();
+        for (_, from, v) in out.votes_sent.iter() {
+            if v.slot != slot || !out.correct.contains(from) {
                 continue;
             }
             match (v.kind, v.hash) {
                 (VK::Notar, Some(h)) => {
-                    notar.entry(h).or_default().insert(v.signer);
+                    own.insert(*from, h);
                 }
-                (VK::Skip, _) => {
-                    skip.insert(v.signer);
+                (VK::NotarFallback, Some(h)) => {
+                    nf.insert((*from, h));
                 }
                 _ => {}
             }
         }
-        if notar.len() < 2 {
+        let blocks: BTreeSet<H32> = own.values().copied().collect();
+        if blocks.len() < 2 {
             continue;
         }
-        let st = |s: &BTreeSet<usize>| -> u128 { s.iter().map(|i| cfg.ep.stakes[*i] as u128).sum() };
-        let per: Vec<u128> = notar.values().map(st).collect();
-        let sum: u128 = per.iter().sum();
-        let max: u128 = per.iter().copied().max().unwrap_or(0);
-        let sk = st(&skip);
-        // every validator that is still alive and correct has cast its initial vote
-        let voted: BTreeSet<usize> = notar.values().flatten().copied().chain(skip.iter().copied()).collect();
-        let all_voted = out.correct.iter().all(|c| voted.contains(c));
-        let any_cert = max * 5 >= 3 * total || sk * 5 >= 3 * total;
-        let s2s = (sk + sum - max) * 5 >= 2 * total;
-        let s2n = per.iter().any(|nb| *nb * 5 >= 2 * total || (*nb * 5 >= total && (*nb + sk) * 5 >= 3 * total));
-        if all_voted && !any_cert && !s2s && !s2n {
-            return Some(format!("slot {slot}: notar stake per block {per:?}, skip {sk}, total {total}, crashed or Byzantine {faulty}"));
+        for (&node, mine) in &own {
+            let mut notar: BTreeMap<H32, BTreeSet<usize>> = BTreeMap::new();
+            let mut skip: BTreeSet<usize> = BTreeSet::new();
+            for (_, to, v) in out.votes_delivered.iter() {
+                if *to != node || v.slot != slot || v.signer >= cfg.ep.n() {
+                    continue;
+                }
+                match (v.kind, v.hash) {
+                    (VK::Notar, Some(h)) => {
+                        notar.entry(h).or_default().insert(v.signer);
+                    }
+                    (VK::Skip, _) => {
+                        skip.insert(v.signer);
+                    }
+                    _ => {}
+                }
+            }
+            let sk = st(&skip);
+            for (b, voters) in &notar {
+                let nb = st(voters);
+                let stake_ok = nb * 5 >= 2 * total || (nb * 5 >= total && (nb + sk) * 5 >= 3 * total);
+                if b != mine && stake_ok && !nf.contains(&(node, *b)) {
+                    return Some(format!("slot {slot}: node {node} sees notar stake {nb}/{total} for the block it did not vote for and never cast notar-fallback for it"));
+                }
+            }
         }
     }
     None
@@ -143,6 +219,14 @@ pub fn progress_oracle(cfg: &RunCfg, out: &RunOut) -> (Vec<Finding>, Value, usiz
                 // is the chain stuck behind a slot that the voting rules can never certify? (an equivocating leader
                 // split the notar votes so that no certificate and no safe-to condition is reachable any more)
                 let deadlock = deadlocked_slot(cfg, out, last_val);
+                if deadlock.is_none() {
+                    if let Some(why) = rival_block_pending(cfg, out, last_val) {
+                        // not judged (see DESIGN.md section 15): progress hinges on correct nodes fetching an
+                        // equivocating leader's other block by repair, which this harness cannot vouch for
+                        f.push(Finding { prop: "UNJUDGED", sig: "stall behind an equivocated slot whose rival block some nodes never registered".into(), detail: format!("node {v}: stuck at slot {last_val}; {why}") });
+                        break;
+                    }
+                }
                 let sig = match deadlock {
                     Some(_) => "an equivocating leader split the votes of a slot so that no certificate and no safe-to condition is reachable (more than 20 % of the stake crashed or Byzantine): finalization stops for good".to_string(),
                     None => "highest finalized slot stopped advancing after stabilisation".to_string(),
@@ -384,7 +468,7 @@ pub fn rival_cfg(rng: &mut SRng, cfg: &mut RunCfg) {
 
 pub fn run_c02(ctx: &mut Ctx) -> Result<(), String> {
     let mut rng = ctx.rng("c02");
-    let runs = ctx.iters(32, 1200);
+    let runs = ctx.iters(32, 800);
     if ctx.shard == 0 {
         // directed (reproduces a recorded finding every run): 6 equal validators, one crashed, one Byzantine
         // leader that shows one block to half of the correct nodes and another block to the other half
@@ -833,7 +917,7 @@ pub fn run_c16_nodes(ctx: &mut Ctx, runs_q: u64, runs_t: u64) {
 /// C10: hostile input on all five interfaces and Byzantine-signed content never crash or wedge a node.
 pub fn run_c10(ctx: &mut Ctx) -> Result<(), String> {
     let mut rng = ctx.rng("c10");
-    let runs = ctx.iters(32, 1600);
+    let runs = ctx.iters(32, 800);
     for i in 0..runs {
         let mut cfg = loop {
             let c = base_cfg(&mut rng, ctx.quick(), true, false);
